@@ -69,6 +69,7 @@ def run(ctx):
     ctx.rule("R11.5", "parameter plumbing")
     ctx.rule("R11.6", "an incomplete viewBox counts as no viewBox")
     ctx.rule("R11.8", "e-x, e-y, e-width, e-height: percentages of the svg element resolve against the viewport axis they lie on (obligations shared with C03)")
+    ctx.rule("R11.9", "the element size enters the algorithm in user units: every unit of Length.value resolves by the CSS ratio (obligations shared with C12 R12.1/R12.2)")
     ctx.rule("R11.7", "the element size handed to render: each dimension defaults on its own (caller value, else viewBox dimension, else 1000)")
     incomplete_viewbox(ctx)
     size_defaults(ctx)
@@ -77,6 +78,9 @@ def run(ctx):
     from . import c03
 
     c03.axis_reference(ctx.renamed("R11.8"), only=("SVG",))
+    from . import c12
+
+    c12.value_table(ctx.renamed("R11.9"))
     fn = ctx.fn("Viewbox.viewbox_transform", "R11.1")
     have = [a.arg for a in fn.args.args]
     ctx.need(len(have) == 9, "R11.1", "viewbox_transform parameters changed: %s" % have)
